@@ -8,6 +8,7 @@ from .. import cats, docgen as D, kdoc as K, spine as S, xform as X
 from ..common import Bad, Result
 
 ID = 'C13'
+SHARDS_QUICK = 4
 TC = kp.TokenCategory
 RULE = ('Hypothesis documents (profiles "full" with 4 encodings and "agnostic" with all 6) x 8 drawn option sets each: '
         'subset of spine ids (or omitted), subset of spine types (or omitted), include/exclude category sets of size '
@@ -203,10 +204,10 @@ def check(case):
 
 
 def run(ctx):
-    n = 120 if ctx.quick else 900
+    n = 40 if ctx.quick else 900
     ctx.run_hypothesis(cases('full'), check, max_examples=n, label='full')
     ctx.run_hypothesis(cases('agnostic'), check, max_examples=n, salt=1, label='agnostic')
-    ctx.run_hypothesis(cases('sep'), check, max_examples=max(30, n // 3), salt=2, label='separator-characters-in-text')
+    ctx.run_hypothesis(cases('sep'), check, max_examples=max(12, n // 3), salt=2, label='separator-characters-in-text')
 
 
 def replay(case):
